@@ -104,10 +104,33 @@ def _materialise_lazy_dict(st, d, k, v):
     if rec.get("lazy"):
         kkind, vkind = value_kind(k), value_kind(v)
         if kkind is None or vkind is None:
+            if isinstance(k, VConc):
+                return st.setobj(d.oid, {"pure": True, "pyitems": ()})     # record with literal keys, any values
             raise Unsupported("lazy dict with non-scalar entry")
-        st = st.setobj(d.oid, {"dom": z3.K(sort_of(kkind), z3.BoolVal(False)),
-                               "val": z3.K(sort_of(kkind), _default(vkind)), "kkind": kkind, "vkind": vkind})
+        dom0, val0 = z3.K(sort_of(kkind), z3.BoolVal(False)), z3.K(sort_of(kkind), _default(vkind))
+        st = st.setobj(d.oid, {"dom": dom0, "val": val0, "kkind": kkind, "vkind": vkind,
+                               "pyitems": (), "pysig": (dom0, val0)})   # literal-key stores are also tracked: see dict_setitem
     return st
+
+
+def _py_store(items, key, val):
+    out, hit = [], False
+    for k, v in items:
+        if k == key:
+            out.append((k, val))
+            hit = True
+        else:
+            out.append((k, v))
+    if not hit:
+        out.append((key, val))
+    return tuple(out)
+
+
+def _py_lookup(items, key):
+    for k, v in items:
+        if k == key:
+            return v
+    return None
 
 
 # ---------------------------------------------------------------- sequences
@@ -211,6 +234,13 @@ def contains(eng, st, cont, item):
         rec = st.objs[cont.oid]
         if rec.get("lazy"):
             return [("ok", st, VBool(False))]
+        if rec.get("pure"):
+            if not isinstance(item, VConc):
+                raise Unsupported("record dict with a symbolic key")
+            v = _py_lookup(rec["pyitems"], item.py)
+            if isinstance(v, VOpaque) and v.what == "maybe-entry":
+                raise Unsupported("membership of a record entry whose presence is unknown")
+            return [("ok", st, VBool(v is not None))]
         try:
             k = unwrap(item, rec["kkind"])
         except Unsupported:
@@ -454,6 +484,13 @@ def dict_getitem(eng, st, d, key):
     rec = st.objs[d.oid]
     if rec.get("lazy"):
         return [eng.raise_(st, "KeyError")]
+    if rec.get("pure"):
+        if not isinstance(key, VConc):
+            raise Unsupported("record dict with a symbolic key")
+        v = _py_lookup(rec["pyitems"], key.py)
+        if isinstance(v, VOpaque) and v.what == "maybe-entry":
+            raise Unsupported("read of a record entry whose presence is unknown")
+        return [("ok", st, v)] if v is not None else [eng.raise_(st, "KeyError")]
     k = unwrap(key, rec["kkind"])
     res = []
     for ok, s in eng.branch(st, z3.Select(rec["dom"], k)):
@@ -471,12 +508,34 @@ def _dict_val(rec, k):
 
 
 def dict_setitem(eng, st, d, key, val):
+    """typed map (dom/val arrays); a dict that has only ever been stored into with LITERAL keys is also tracked as a record
+    (`pyitems`) and becomes a pure record - heterogeneous values allowed, literal keys only - at the first store whose value
+    does not fit the value kind (e.g. the dictionaries built by cobra.io.dict)"""
     st = _materialise_lazy_dict(st, d, key, val)
     rec = st.objs[d.oid]
+    if rec.get("pure"):
+        if not isinstance(key, VConc):
+            raise Unsupported("record dict with a symbolic key")
+        return [("ok", st.updobj(d.oid, pyitems=_py_store(rec["pyitems"], key.py, val)), NONE)]
+    tracked = rec.get("pyitems")
+    if tracked is not None and not (rec["dom"].eq(rec["pysig"][0]) and rec["val"].eq(rec["pysig"][1])):
+        tracked = None                      # the map was changed by something else than literal-key stores
+    if tracked is not None and isinstance(key, VConc):
+        try:
+            unwrap(val, rec["vkind"])
+            fits = True
+        except Unsupported:
+            fits = False
+        if not fits:
+            return [("ok", st.setobj(d.oid, {"pure": True, "pyitems": _py_store(tracked, key.py, val)}), NONE)]
     k = unwrap(key, rec["kkind"])
     upd = {"dom": z3.Store(rec["dom"], k, z3.BoolVal(True)), "val": z3.Store(rec["val"], k, unwrap(val, rec["vkind"]))}
     if "card" in rec:
         upd["card"] = z3.If(z3.Select(rec["dom"], k), rec["card"], rec["card"] + 1)
+    if tracked is not None and isinstance(key, VConc):
+        upd["pyitems"], upd["pysig"] = _py_store(tracked, key.py, val), (upd["dom"], upd["val"])
+    elif "pyitems" in rec:
+        upd["pyitems"] = None
     return [("ok", st.updobj(d.oid, **upd), NONE)]
 
 
@@ -814,6 +873,11 @@ def bi_str(eng, st, pos, kw):
         return [("ok", st, pos[0])]
     if pos and isinstance(pos[0], VConc) and isinstance(pos[0].py, str):
         return [("ok", st, pos[0])]
+    if pos and isinstance(pos[0], (VRef, VObj)) and eng.class_info(pos[0].cls) is not None:
+        try:
+            return eng.call_method(st, pos[0], "__str__", [], {})      # the class's own __str__ (inlined or by contract)
+        except Unsupported:
+            pass
     return [("ok", st, VOpaque("str"))]
 
 
@@ -897,6 +961,18 @@ def bi_list(eng, st, pos, kw):
     if seq is None:
         return eng.bind(C.iterable_to_seq(eng, st, pos[0]), mk)
     return mk(st, seq)
+
+
+def bi_sorted(eng, st, pos, kw):
+    """sorted(iterable[, key=...]) = a new list that is a permutation of the iterable (the order BY KEY is not modelled: nothing
+    may be concluded from it; same treatment as list.sort)"""
+    if any(k not in ("key", "reverse") for k in kw):
+        raise Unsupported("sorted() keywords")
+    return eng.bind(bi_list(eng, st, [pos[0]], {}), lambda s, l: eng.bind(list_sort(eng, s, l, kw), lambda s2, _: [("ok", s2, l)]))
+
+
+def bi_attrgetter(eng, st, pos, kw):
+    return [("ok", st, VFunc("attrgetter", tuple(p.py if isinstance(p, VConc) else None for p in pos)))]
 
 
 def bi_set(eng, st, pos, kw):
@@ -993,6 +1069,7 @@ BUILTINS = {
     "enumerate": bi_enumerate, "islice": bi_islice, "range": bi_range, "str": bi_str, "repr": bi_opaque,
     "format": bi_opaque, "id": bi_opaque, "isinf": bi_isinf, "isnan": bi_isnan, "abs": bi_abs, "min": _minmax(True), "max": _minmax(False),
     "float": bi_float, "bool": bi_bool, "partial": bi_partial, "list": bi_list, "set": bi_set, "dict": bi_dict,
+    "OrderedDict": bi_dict, "sorted": bi_sorted, "attrgetter": bi_attrgetter,      # insertion order is what dict has anyway; move_to_end etc. are not modelled
     "tuple": bi_tuple, "slice": bi_slice, "any": bi_any_all(True), "all": bi_any_all(False), "type": bi_type,
     "super": bi_super, "frozenset": bi_set,
 }
